@@ -270,12 +270,52 @@ def run_case(case, ctx):
 DIRS = [(1, 0, 0), (1, 0.16, 0), (1, -0.16, 0), (1, 0, 0.2), (0, 0, 1), (0, 1, 0), (0.2, 1, 0), (-0.5, 0.5, 1), (0, -1, 0.2)]
 
 
+AXES = [(-1, 0, 0), (0, 1, 0), (0, -1, 0), (0, 0, 1), (0, 0, -1)]  # +x leads back along the stem: not used
+
+
+def cube_rotations():
+    """The 24 proper rotations that map coordinate axes onto coordinate axes (signed permutation matrices, det +1)."""
+    import itertools
+
+    out = []
+    for perm in itertools.permutations(range(3)):
+        for sg in itertools.product([1, -1], repeat=3):
+            m = np.zeros((3, 3))
+            for i, p_ in enumerate(perm):
+                m[i, p_] = sg[i]
+            if np.linalg.det(m) > 0:
+                out.append(m)
+    return out
+
+
+CUBE = cube_rotations()
+
+
+@st.composite
+def _axis_parallel_case(draw):
+    """Every compartment parallel to a coordinate axis, two or three daughters of one node leaving along the *same*
+    axis with different lengths (their cones overlap over the whole shorter one) plus daughters along other axes.
+    Twin: another root-first numbering, and the neuron turned by one of the 24 rotations of the cube and shifted."""
+    nodes = [[0.0, 0.0, 0.0, 1.5, -1], [-5.0, 0.0, 0.0, draw(st.sampled_from([0.75, 1.0, 1.25])), 0]]
+    axes = list(draw(st.permutations(AXES)))[: draw(st.integers(2, 3))]
+    for ai, d in enumerate(axes):
+        m = draw(st.integers(2, 3)) if ai == 0 else draw(st.integers(1, 2))
+        lens = list(draw(st.permutations([2.5, 3.0, 4.0, 5.0, 6.0])))[:m]
+        for L in lens:
+            nodes.append([-5.0 + d[0] * L, d[1] * L, d[2] * L, draw(st.sampled_from([0.5, 0.75, 1.0, 1.25])), 1])
+    n = len(nodes)
+    return {"family": "axis-parallel", "nodes": nodes, "perm": list(draw(st.permutations(list(range(1, n))))),
+            "move": True, "cube": draw(st.integers(0, 23)), "offset": [draw(st.integers(-80, 80)) / 8.0 for _ in range(3)]}
+
+
 @st.composite
 def volume_mc_strategy(draw, tier):
     """A soma, a stem and one node with three or four thick daughters, two or more of which leave in almost the same
     direction: their cones overlap beyond the node's sphere, which only the default accuracy level (>= 5) accounts
     for, pair by pair.  Twin: the same neuron with another root-first numbering (sibling order changes) and / or
-    rigidly moved."""
+    rigidly moved.  A third of the cases are axis-parallel neurons moved by rotations of the cube."""
+    if draw(st.integers(0, 2)) == 0:
+        return draw(_axis_parallel_case())
     k = draw(st.integers(3, 4))
     dirs = list(draw(st.permutations(DIRS)))[:k]
     if draw(st.integers(0, 3)) > 0:  # make sure two near-parallel daughters are present, in any position
@@ -324,7 +364,10 @@ def run_volume_mc(case, ctx):
     parents = [int(r[4]) for r in rows]
     new_parents, new = gen_tree.permute_keep_root(parents, case["perm"])
     P = np.asarray([r[:3] for r in rows], dtype=np.float64)
-    if case["move"]:
+    axis_parallel = case.get("family") == "axis-parallel"
+    if axis_parallel:
+        P = P @ CUBE[case["cube"]].T + np.asarray(case["offset"], dtype=np.float64)
+    elif case["move"]:
         P = P @ models.rodrigues(case["axis"], case["theta"]).T + np.asarray(case["offset"], dtype=np.float64)
     twin = [None] * n
     for i in range(n):
@@ -334,7 +377,7 @@ def run_volume_mc(case, ctx):
     order_b = sorted(ch[1], key=lambda i: new[i])
     reordered = order_a != order_b
     ctx.cls("siblings-reordered" if reordered else "sibling-order-kept", "moved" if case["move"] else "in-place",
-            f"daughters:{len(ch[1])}")
+            f"daughters:{len(ch[1])}", "family:axis-parallel" if axis_parallel else "family:oblique")
     ctx.nontrivial(reordered)
     # two twins, judged separately: the same pose under another numbering, and the rigidly moved neuron
     same_pose = [None] * n
@@ -357,15 +400,19 @@ def run_volume_mc(case, ctx):
         l3 = float(ctx.lib("moved/get_volume[accuracy=3]", get_volume, t3, accuracy=3))
         ctx.check(abs(l3 - v_low) <= 1e-3 * v_low, "volume/analytic-level-unchanged-by-rigid-motion", lambda: f"{v_low!r} vs {l3!r}")
         v3 = float(ctx.lib("moved/get_volume[default]", get_volume, t3))
-        ctx.check(abs(v1 - v3) <= 0.005 * max(v1, v3), "volume/default-level-unchanged-by-rigid-motion",
+        # the open finding (KNOWN_FINDINGS.txt) concerns compartments that are oblique to the coordinate axes; for
+        # axis-parallel neurons under the rotations of the cube the clause is armed under its own signature
+        ctx.check(abs(v1 - v3) <= 0.005 * max(v1, v3),
+                  "volume/default-level-unchanged-by-axis-parallel-motion" if axis_parallel
+                  else "volume/default-level-unchanged-by-rigid-motion",
                   lambda: f"{v1!r} vs {v3!r} (relative {abs(v1 - v3) / max(v1, v3):.3g}); nodes {rows}, perm {case['perm']}, "
-                          f"axis {case.get('axis')}, angle {case.get('theta')}, offset {case.get('offset')}")
+                          f"axis {case.get('axis')}, angle {case.get('theta')}, cube rotation {case.get('cube')}, offset {case.get('offset')}")
 
 
 SUBCHECKS = [
     Sub("invariance", case_strategy, run_case, quick=3000, thorough=40000, shards_quick=8,
         required={"kind:rigid": 150, "kind:renumber": 80, "kind:scale": 80, "furcation": 300, "translated-far-away": 60,
                   "finely-traced": 100, "scaled-by-the-library-after-measuring": 40}),
-    Sub("volume_mc", volume_mc_strategy, run_volume_mc, quick=32, thorough=480, shards_quick=8,
-        required={"siblings-reordered": 8, "daughter-cones-overlap>1%": 8}),
+    Sub("volume_mc", volume_mc_strategy, run_volume_mc, quick=48, thorough=640, shards_quick=8,
+        required={"siblings-reordered": 8, "daughter-cones-overlap>1%": 8, "family:axis-parallel": 4, "family:oblique": 8}),
 ]
